@@ -46,12 +46,15 @@ TECHNIQUE = (
     "model, the model state being read off the real server's own state at the instant of the cut"
 )
 LEVEL_TEXT = (
-    "Proved (Closed under the global context) for every reachable state of the model (any command / transfer in any "
-    "stage, any number of workers and blocks) and every ending event (QUIT, peer EOF, handler error, idle timeout, server "
-    "close): C12_end_releases_all_partial (finally block + at most |ctx|+1 steps of each cancelled worker leave the ledger "
-    "empty, outside the two holes), C12_end_by_failed_task_partial, C12_unwinding_terminates (no further input needed), "
-    "C12_server_close_completes.  Refuted on today's code with witnesses replayed on the real server every run: "
-    "C12_end_releases_all_refuted_file_open (F4), C12_end_releases_all_refuted_listener_startup (F5), hence "
+    "Proved (Closed under the global context) for EVERY reachable state of the model of a live session (any command / "
+    "transfer in any stage - the back-end open included -, any number of workers and blocks) and every ending event "
+    "(QUIT, peer EOF, handler error, idle timeout, server close): C12_end_releases_all_partial (finally block + at most "
+    "|ctx|+1 steps of each cancelled worker leave the ledger empty; the only premise left is that no listener start-up "
+    "is in progress: finding F5, not repaired), C12_end_by_failed_task_partial, C12_unwinding_terminates (every worker "
+    "of a reachable state, no carve-out), C12_server_close_completes, C12_startup_hole_closed_by_giveback.  The "
+    "theorems rest on C12_facts_ok (repaired12 genF: finally block model-checked, workers own the stream through an "
+    "`async with` whose first item is the stream - false on the former file-first shape).  Refuted with witnesses "
+    "replayed on the real server every run: C12_end_releases_all_refuted_listener_startup (F5), hence "
     "C12_end_releases_all_refuted.  PARTIAL: GC-time closing, an executor thread finishing an open after cancellation and "
     "the kernel's treatment of half-closed sockets are runtime behaviour the model does not exhibit."
 )
@@ -87,7 +90,7 @@ def end_steps(how):
     if how == "quit":
         return [["mark"], ["cmd", "QUIT"]]
     if how == "error":
-        return [["mark"], ["cmd", "REST ²"]]  # str.isdigit() true, int() raises: unhandled ValueError in the handler (F09)
+        return [["mark"], ["cmdhex", "fffe"]]  # not UTF-8: UnicodeDecodeError in the session's parse_command task
     if how == "idle":
         return [["mark"], ["sleep", 4]]
     raise ValueError(how)
@@ -381,11 +384,12 @@ def event_cases(ctx, thorough):
 
 def obligations(ctx):
     o = ctx.model([(1, [])])[0]
-    names = ["sound12", "sound14", "workers_ok", "fin_ok"]
-    for n, v in zip(names, o[:4]):
-        if not v and n != "sound14":
+    flags = {"sound12": o[0], "workers_ok": o[2], "fin_ok": o[3], "repaired12": o[7], "stream_first_ok": o[9]}
+    for n, v in flags.items():
+        if not v:
             ctx.obligation_broken("C12_facts_ok:" + n, "the structural fact the C12 theorems rest on no longer holds in server.py "
-                                  "(a statement of the dispatcher's finally block, or a worker's `async with` / detach-first)")
+                                  "(a statement of the dispatcher's finally block, a worker's `async with` / detach-first, "
+                                  "or the stream is no longer the first item of a worker's `async with`)")
 
 
 def correspondence(ctx, thorough=None):
@@ -430,7 +434,6 @@ def search(ctx):
 
 
 KNOWN = {
-    "F4-file-open-leaves-data-stream-open-seen-from-C12": [(KEY_F4, lambda: end_case("STOR", ("gate", "open", 1), "quit"))],
     "F5-pasv-cancel-port-leak-seen-from-C12": [
         (KEY_F5A, lambda: end_case(None, ("bind", 1), "eof")),
         (KEY_F5B, lambda: end_case(None, ("bind", 2), "close")),
